@@ -377,6 +377,8 @@ func checkC02History(sim *core.Sim, prop, detail string, a, b *stationRT, ev []m
 					sim.Violate(prop, "byte-identity", "unknown-mid-delivered/"+detail, "%s received MID %q which %s never queued", y.name, e.MID, x.name)
 				} else if !bytes.Equal(want, e.Data) {
 					sim.Violate(prop, "byte-identity", "delivered-differs/"+detail, "%s->%s %s: content handed to the handler differs from the queued message (%d vs %d bytes)", x.name, y.name, e.MID, len(e.Data), len(want))
+				} else if same, why := sameContent(e.Data, x.composed[e.MID]); !same {
+					sim.Violate(prop, "byte-identity", "delivered-content-differs-from-composed/"+detail, "%s->%s %s: what was handed to the handler is not the message as it was composed: %s", x.name, y.name, e.MID, why)
 				}
 			case e.Station == y.name && e.Kind == "inbound-ok":
 				if s := state[e.MID]; s != nil {
